@@ -59,6 +59,14 @@ def ref(text, opts, cov, readable):
                           "funcs": cov["funcs"]})
 
 
+def is_covered(cov):
+    """filter.rs is_covered, on a JSON record"""
+    if not any(c != 0 for _, c in cov["lines"]):
+        return False
+    fns = cov["funcs"]
+    return len(fns) <= 1 or any(e and bytes.fromhex(n) != b"top-level" for n, _, e in fns)
+
+
 def gen_cov(rng, nlines):
     pool = list(range(1, nlines + 3)) + [0, 2**32 - 1]
     return gen.cov(rng, max_lines=min(8, len(pool)), lines_pool=pool, names_pool=["f", "g"])
@@ -85,6 +93,15 @@ def evaluate(chk, cases, label):
             continue
         exp = ref(text, case["opts"], case["cov"], case["readable"])
         got = gen.cov_canon(ri["cov"])
+        # --filter is decided on the record AFTER the exclusions (the pipeline of main.rs)
+        want_present = case.get("filter") is None or is_covered(exp) == case["filter"]
+        if ri.get("present", True) != want_present:
+            chk.violation({"kind": "oracle", "engine": "markers", "case": case, "source": text, "present": ri.get("present"), "expected_record": exp,
+                           "clause": "with --filter the file is reported iff the record left after the exclusions has the requested covered/uncovered status"}, tag=label)
+            continue
+        if not want_present:
+            chk.nontrivial(case)
+            continue
         if vlib.canon(got) != vlib.canon(exp):
             chk.violation({"kind": "oracle", "engine": "markers", "case": case, "source": text, "impl": got, "expected": exp,
                            "clause": "line data removed iff line marker or inside start..stop region; branch data by the branch markers; nothing else changes"}, tag=label)
@@ -123,7 +140,8 @@ def make_cases(chk, n):
         rx = rng.choice(REGEXES)
         sub = rng.choice([63, 63, 63, rng.randrange(64), rng.randrange(64), 0])
         opts = [rx[j] if (sub >> j) & 1 else None for j in range(6)]
-        cases.append({"text": text.encode().hex(), "opts": opts, "cov": gen_cov(rng, nl), "readable": rng.random() > 0.05})
+        cases.append({"text": text.encode().hex(), "opts": opts, "cov": gen_cov(rng, nl), "readable": rng.random() > 0.05,
+                      "filter": rng.choice([None, None, True, False])})
     return cases
 
 
